@@ -292,6 +292,7 @@ C04.vis: parts that are not PER-visible (X.691 10.3.21; a PATTERN constraint sta
     render(m, ctx, &consts);
     outer_marker(m, ctx);
     size_flag(m, ctx);
+    marker_conversions(m, ctx);
     // an INTEGER's bounds are folded as signed (= C06.signed)
     crate::rules::c06::signed_flag(m, ctx, "C04.signed");
     // "named numbers are resolved": in the governing type's scope (= C09.scope)
@@ -361,6 +362,62 @@ fn size_flag(m: &Model, ctx: &mut Ctx) {
             Err(e) => ctx.fail_closed("C04.size", &format!("[{}]: {}", what, e)),
         }
     }
+}
+
+/// C04.marker: "flagged extensible exactly when the constraint has an extension marker" starts where the parser's
+/// (value, Option<ExtensionMarker>) pairs become IR: every `From<(.., Option<ExtensionMarker>)>` conversion into a constraint
+/// node is evaluated with and without the marker — `extensible` is true exactly with it.
+fn marker_conversions(m: &Model, ctx: &mut Ctx) {
+    use std::collections::BTreeMap as Map;
+    let consts = const_resolver(m);
+    let hook = |_: &Evaluator, _: &str, _: &[Val]| -> Option<Result<Val, String>> { None };
+    let ev = Evaluator { consts: &consts, call_hook: &hook, inline: None };
+    let mut n = 0;
+    for f in m.fns.iter().filter(|f| f.krate == "rasn-compiler" && f.module.starts_with("intermediate::constraints") && f.name == "from" && f.trait_.as_deref().map(|t| t.starts_with("From")).unwrap_or(false)) {
+        let Some(syn::FnArg::Typed(arg)) = f.sig.inputs.first() else { continue };
+        let ty = tok(&arg.ty);
+        if !ty.contains("Option<ExtensionMarker>") {
+            continue;
+        }
+        // position of the marker in the tuple
+        let inner = ty.trim_start_matches('(').trim_end_matches(')');
+        let mut depth = 0;
+        let mut parts: Vec<String> = vec![String::new()];
+        for ch in inner.chars() {
+            match ch {
+                '<' | '(' => { depth += 1; parts.last_mut().unwrap().push(ch) }
+                '>' | ')' => { depth -= 1; parts.last_mut().unwrap().push(ch) }
+                ',' if depth == 0 => parts.push(String::new()),
+                c => parts.last_mut().unwrap().push(c),
+            }
+        }
+        let Some(pos) = parts.iter().position(|p| p.trim() == "Option<ExtensionMarker>") else { continue };
+        // is the result a node with an `extensible` flag?
+        if !tok(&f.block).contains("extensible") {
+            continue;
+        }
+        n += 1;
+        ctx.func(&f.key);
+        let pname = tok(&arg.pat);
+        for marker in [false, true] {
+            ctx.oblige("C04.marker", &format!("{}:{}", f.self_ty.clone().unwrap_or_default(), marker), true);
+            let vals: Vec<Val> = (0..parts.len()).map(|i| if i == pos { if marker { Val::some(Val::Ctor("ExtensionMarker".into(), vec![], Map::new())) } else { Val::none() } } else if parts[i].trim().starts_with("Vec<") { Val::List(vec![]) } else { Val::Sym(format!("part{}", i)) }).collect();
+            let mut env = Env::new();
+            env.insert(pname.clone(), Val::Tuple(vals));
+            match ev.eval_fn_body(&f.block, &mut env) {
+                Ok(v) => {
+                    let sh = v.show();
+                    let flag = if sh.contains("extensible:true") { Some(true) } else if sh.contains("extensible:false") { Some(false) } else { None };
+                    if flag != Some(marker) {
+                        ctx.violate("C04.marker", &format!("conversion:{}", f.self_ty.clone().unwrap_or_default()), &f.file, f.line,
+                            &format!("`impl From<{}> for {}` with{} an extension marker yields `{}`: the node is extensible exactly when the marker was written", ty, f.self_ty.clone().unwrap_or_default(), if marker { "" } else { "out" }, sh.chars().take(100).collect::<String>()));
+                    }
+                }
+                Err(e) => ctx.fail_closed("C04.marker", &format!("[{}]: {}", f.key, e)),
+            }
+        }
+    }
+    ctx.floor("C04.marker/conversions", n, 2);
 }
 
 fn serial(m: &Model, ctx: &mut Ctx, consts: &dyn Fn(&str) -> Option<Val>) {
